@@ -593,6 +593,38 @@ def _r2_jacobian(ctx):
                isinstance(s.value, ast.Call) and call_name(s.value) in ("np.array", "np.asarray") and s.value.args and
                isinstance(s.value.args[0], ast.List) and len(s.value.args[0].elts) == 3 and
                all(isinstance(r, ast.List) and len(r.elts) == 3 for r in s.value.args[0].elts)]
+        matrix_idiom = None
+        if len(asm) != 1 and shape != "hexahedral":
+            # second accepted idiom (linear simplex only): J = (C[1:] - C[0]).T with C = <frame>.iloc[:n, :3] as an array, i.e.
+            # J[i][j] = x_(j+2),i - x_1,i - possibly inside an extracted private helper
+            from ..inline import inlined
+            from ..astutil import inline_single_defs
+            compi = inlined(prog, comp)
+            for s_ in walk_function(compi.node):
+                if not (isinstance(s_, ast.Assign) and isinstance(s_.targets[0], ast.Name)):
+                    continue
+                v_ = inline_single_defs(compi.node, s_.value)
+                if isinstance(v_, ast.Attribute) and v_.attr == "T" and isinstance(v_.value, ast.BinOp) and isinstance(v_.value.op, ast.Sub):
+                    a_, b_ = v_.value.left, v_.value.right
+                    if isinstance(a_, ast.Subscript) and isinstance(b_, ast.Subscript) and norm_text(a_.value) == norm_text(b_.value) and \
+                            isinstance(a_.slice, ast.Slice) and const_value(a_.slice.lower) == 1 and a_.slice.upper is None and \
+                            const_value(b_.slice) == 0:
+                        base = a_.value
+                        while isinstance(base, ast.Call) and isinstance(base.func, ast.Attribute) and base.func.attr in ("to_numpy", "astype"):
+                            base = base.func.value
+                        if isinstance(base, ast.Attribute) and base.attr == "values":
+                            base = base.value
+                        if isinstance(base, ast.Subscript) and isinstance(base.value, ast.Attribute) and base.value.attr == "iloc" and \
+                                isinstance(base.slice, ast.Tuple) and len(base.slice.elts) == 2 and \
+                                all(isinstance(x_, ast.Slice) and x_.lower is None for x_ in base.slice.elts) and \
+                                const_value(base.slice.elts[0].upper) == n_nodes and const_value(base.slice.elts[1].upper) == 3:
+                            matrix_idiom = s_
+        if matrix_idiom is not None:
+            src_ = "\n".join("J%d%d = x%d%d - x1%d" % (i_ + 1, j_ + 1, j_ + 2, i_ + 1, i_ + 1) for i_ in range(3) for j_ in range(3))
+            src_ += "\nJ = np.array([[J11, J12, J13], [J21, J22, J23], [J31, J32, J33]])\n"
+            synth = ast.parse(src_).body
+            asm = [synth[-1]]
+            synth_defs = {st_.targets[0].id: st_ for st_ in synth[:-1]}
         if len(asm) != 1:
             raise AnalysisError("%s: Jacobian assembly (3x3 literal) not found" % shape)
         rows = asm[0].value.args[0].elts
@@ -601,6 +633,8 @@ def _r2_jacobian(ctx):
         for s in walk_function(comp.node):
             if isinstance(s, ast.Assign) and isinstance(s.targets[0], ast.Name) and s.targets[0].id in cells:
                 jdefs[s.targets[0].id] = s
+        if matrix_idiom is not None:
+            jdefs = synth_defs
         if len(jdefs) != 9:
             raise AnalysisError("%s: expected 9 Jacobian entries, found %d" % (shape, len(jdefs)))
         # coordinate symbols: the three names unpacked from <frame>.iloc[a, :3] are x_{a+1},1..3 (by position)
@@ -617,6 +651,11 @@ def _r2_jacobian(ctx):
                     for i, t in enumerate(s.targets[0].elts):
                         if isinstance(t, ast.Name):
                             canon[t.id] = "x%d%d" % (row + 1, i + 1)
+        if matrix_idiom is not None:
+            n_rows = n_nodes                      # the array C holds rows 0..n-1, columns 0..2 (checked above)
+            for a_ in range(n_nodes):
+                for i_ in range(3):
+                    canon["x%d%d" % (a_ + 1, i_ + 1)] = "x%d%d" % (a_ + 1, i_ + 1)
         if n_rows == n_nodes:
             ctx.holds(comp, comp.node, "%s: node coordinates x_a,i are unpacked from row a-1, columns 0..2" % shape)
         else:
